@@ -201,6 +201,98 @@ def run_fault(case: dict) -> Outcome:
     return out
 
 
+# ----------------------------------------------------------------------------- results under a stop request
+
+
+def stop_case():
+    from harness.checks import c03
+
+    idx = [i for i, c in enumerate(c03.POOL) if any(j.get("store_result") for j in c["jobs"])]
+    # the forced cancellation comes `graceful` after the signal: with graceful 0 a signal a few loop steps *before* the store
+    # begins makes the cancellation land inside it - those scenarios are drawn more often
+    idx = idx + [i for i in idx if c03.POOL[i]["worker"]["graceful"] == 0.0] * 3
+    return st.fixed_dictionaries({"broker": st.sampled_from(["mem", "redis", "amqp"]), "scenario": st.sampled_from(idx),
+                                  "frac": st.floats(0.0, 1.0, allow_nan=False), "delta": st.integers(-12, 6)})
+
+
+def enumerate_stop(tier: str, shard: int, nshards: int):
+    from harness.checks import c03
+
+    n = 0
+    for broker in ("mem", "redis", "amqp"):
+        for i, c in enumerate(c03.POOL):
+            if not any(j.get("store_result") for j in c["jobs"]):
+                continue
+            n += 1
+            if n % nshards != shard:
+                continue
+            lo, hi = c03.dry_run(c03.scenario_for(broker, i))
+            for k in range(lo, hi + 1):
+                yield {"broker": broker, "scenario": i, "step": k}
+
+
+def run_stop(case: dict) -> Outcome:
+    """A finished and reported execution must have its result stored even if the worker is being stopped meanwhile."""
+    import signal
+
+    from harness.checks import c03
+
+    out = Outcome()
+    base = c03.scenario_for(case["broker"], case["scenario"])
+    try:
+        lo, hi = c03.dry_run(base)
+    except (vclock.StepLimit, vclock.Deadlock):
+        out.inconclusive = True
+        return out
+    if "step" in case:
+        k = case["step"]
+    else:
+        # aim at the result-store calls of the uninterrupted run
+        d = scenario.run_case(base)
+        stores = sorted(e.step for e in d.spy.events if e.op == "store_bucket" and lo <= e.step <= hi)
+        k = (stores[min(len(stores) - 1, int(case["frac"] * len(stores)))] + case["delta"]) if stores else lo + int(case["frac"] * (hi - lo))
+        k = max(lo, min(hi, k))
+    info: dict = {}
+
+    def hook(trace, worker):
+        loop = trace.env.loop
+
+        def fire():
+            info["sent"] = loop.send_signal(signal.SIGTERM)
+            info["t"] = loop.time()
+            if info["sent"]:
+                trace.stop_requested_at = loop.time()
+                trace.extra["stop_injected"] = True
+
+        loop.inject_at_step(k, fire)
+
+    try:
+        tr = scenario.run_case(base, hook=hook)
+    except (vclock.StepLimit, vclock.Deadlock):
+        out.inconclusive = True
+        return out
+    hit = False
+    for j in base["jobs"]:
+        if not j.get("store_result"):
+            continue
+        id_ = j["id"]
+        evs = [e for e in tr.spy.for_id(id_, TERMINAL) if e.done and e.op != "reject" and e.caller != "_hand_back"]
+        reported = [e for e in evs if e.caller == "report_to_broker"]
+        if not reported:
+            continue
+        got = tr.results.get(id_)
+        stores = [e for e in tr.spy.events if e.op == "store_bucket" and (e.args[0] if e.args else e.kwargs.get("id_")) == "r-" + id_]
+        if any(not e.done for e in stores):
+            hit = True
+        if got is None or isinstance(got, Exception):
+            out.v("result-lost-at-shutdown", f"[scenario {case['scenario']}, stop signal at loop step {k}] job {id_}: its execution "
+                  f"finished and was reported ({[e.op for e in reported]}) but no result is stored (store_bucket calls: "
+                  f"{[(e.done, e.error) for e in stores]})", broker=case["broker"])
+    out.nontrivial = bool(info.get("sent"))
+    out.cls("broker-" + case["broker"], "store-interrupted" if hit else "store-not-interrupted")
+    return out
+
+
 def _s(brokers, fault=False):
     return lambda: result_case(brokers, fault)
 
@@ -224,5 +316,6 @@ CHECK = Check(
         SubCheck("redis", _s(("redis",)), run, quick=30, thorough=700),
         SubCheck("amqp", _s(("amqp",)), run, quick=15, thorough=400),
         SubCheck("fault", _s(("mem", "redis"), True), run_fault, quick=40, thorough=1000),
+        SubCheck("stop", stop_case, run_stop, quick=25, thorough=0, enumerate_cases=enumerate_stop, exhaustive=True),
     ],
 )
